@@ -268,7 +268,12 @@ func (e *connEnd) deliver() {
 		e.cond.Broadcast()
 	}
 	s.mu.Unlock()
-	s.logf("  delivered %d/%d", n, total)
+	if e.onData != nil && n == total {
+		// replies may embed process statistics (SERVER): sizes are not logged
+		s.logf("  delivered all")
+	} else {
+		s.logf("  delivered %d/%d", n, total)
+	}
 	s.stat("net.bytes", n)
 	if e.onData != nil {
 		e.onData(moved)
